@@ -16,6 +16,24 @@ Facts == JsonDeserialize(IOEnv.FACTS)
 Pool == { Facts.pool[i] : i \in DOMAIN Facts.pool }
 
 Positions == {"field", "variant", "typeparam", "constparam", "lifetime", "typename", "method"}
+
+\* Names the templates *derive* from the user's own field names (recorded from real expansions as prefix/suffix pairs,
+\* e.g. _s_<field>, _o_<field>): a user may call another field exactly that.
+Templates == { Facts.templates[i] : i \in DOMAIN Facts.templates }
+Derive(t, u) == t.pre \o u \o t.suf
+Sibling == "xb"                                       \* the other field of every rendered shape
+Derived1 == { Derive(t, Sibling) : t \in Templates }
+Derived2 == { Derive(t, d) : t \in Templates, d \in Derived1 }
+DerivedNames == (Derived1 \cup Derived2) \ {Sibling}
+\* templates that occur together in the expansion of one trait share a scope (recorded per trait)
+Scopes == { { Facts.scopes[i][j] : j \in DOMAIN Facts.scopes[i] } : i \in DOMAIN Facts.scopes }
+Universe == {Sibling, "xa"} \cup Derived1 \cup Derived2
+\* design-level expectation: within one scope, (template, field) |-> binding name is injective over every choice of
+\* field names, so no binding captures another.  Pairs that break it are CAPTURE candidates (confirmed on the real
+\* code by the harness: compile and run).
+Captures ==
+  { <<sc, f1, f2>> \in Scopes \X Universe \X Universe :
+      f1 # f2 /\ \E t1, t2 \in sc : Derive(t1, f1) = Derive(t2, f2) }
 Kinds == {"struct", "enum"}
 TraitSets == {"cmp8", "copyderefinto"}
 
@@ -28,6 +46,11 @@ Fits(pos, id) ==
 VARIABLES item, phase
 vars == <<item, phase>>
 Init == item = [pos |-> "-"] /\ phase = "choose"
+ChooseDerived ==
+  /\ phase = "choose"
+  /\ \E id \in DerivedNames : \E k \in Kinds : \E ts \in TraitSets :
+       item' = [pos |-> "derived", id |-> id, kind |-> k, traits |-> ts]
+  /\ phase' = "emit"
 Choose ==
   /\ phase = "choose"
   /\ \E pos \in Positions : \E id \in Pool : \E k \in Kinds : \E ts \in TraitSets :
@@ -40,8 +63,9 @@ Emit ==
   /\ phase' = "done"
   /\ UNCHANGED item
   /\ PrintT(<<"HOSTILE", ToJson(item)>>)
-Next == Choose \/ Emit
+Next == Choose \/ ChooseDerived \/ Emit
 Spec == Init /\ [][Next]_vars
 \* every pool identifier is tried at least at one position (checked by the harness on the emitted set)
 TypeOK == phase \in {"choose", "emit", "done"}
+ASSUME PrintT(<<"CAPTURES", ToJson([n |-> Cardinality(Captures), pairs |-> { <<c[2], c[3]>> : c \in Captures }])>>)
 =============================================================================
